@@ -337,6 +337,18 @@ pub fn c10(out: &mut Vec<String>, rng: &mut Rng, tier: &str) {
             ));
         }
     }
+    // a zero critical value (one-sided level exactly 1/2, two-sided level below an ulp): the interval collapses onto
+    // the point estimate, which it must contain exactly
+    for (n, k) in [(10usize, 3usize), (7, 5), (22, 15), (100, 29), (47, 3), (1000, 333)] {
+        let d = Data::<f64>::NK(n, k);
+        let est = estimate("wilson", &d);
+        for (ca, cb) in [(conf_of(1, 0.5), conf_of(2, 0.5)), (conf_of(0, 1e-17), conf_of(1, 0.5)), (conf_of(2, 0.5), conf_of(0, 1e-300))] {
+            out.push(format!(
+                "C10 ci2 f wilson {} {} {} => {} | {} | {}",
+                enc_conf(&ca), enc_conf(&cb), enc_data(&d), produce("wilson", ca, &d), produce("wilson", cb, &d), est
+            ));
+        }
+    }
     // the Wilson-based producers at a level within an ulp of 1 (infinite critical value: the widest interval)
     for (prod, d) in [("wilson", Data::<f64>::NK(40, 13)), ("wilson", Data::NK(5000, 4000)), ("qidx", Data::NQ(50, 0.3)), ("qidx", Data::NQ(2000, 0.9))] {
         let est = estimate(prod, &d);
